@@ -18,6 +18,13 @@
 #include <string.h>
 #include <unistd.h>
 
+#ifdef VH_COV
+int __llvm_profile_write_file(void);
+#    define VH_COV_FLUSH() __llvm_profile_write_file()
+#else
+#    define VH_COV_FLUSH() ((void)0)
+#endif
+
 /* ------------------------------------------------------------------ event writer */
 static FILE *vh_out;
 static int vh_first_field;
@@ -139,9 +146,17 @@ static void vh_die_line(int sig) {
 }
 static void vh_sig_handler(int sig) {
     vh_die_line(sig);
+    VH_COV_FLUSH();
     _exit(0);
 }
+#ifdef VH_NO_ASAN
+static void __sanitizer_set_death_callback(void (*cb)(void)) {
+    (void)cb;
+}
+#else
 void __sanitizer_set_death_callback(void (*cb)(void));
+#endif
+
 static void vh_asan_death(void) {
     vh_die_line(6);
 }
@@ -178,6 +193,12 @@ static int vh_next(FILE *f) {
         char *save = NULL;
         for (char *t = strtok_r(vh_line, " \t\r\n", &save); t && vh_ntok < VH_MAXTOK; t = strtok_r(NULL, " \t\r\n", &save)) {
             vh_tok[vh_ntok++] = t;
+        }
+        if (vh_ntok > 1 && strcmp(vh_tok[0], "ERR") == 0) {
+            /* leave a stale error code behind, as an unrelated failed call on this thread would: the thread-local
+             * last error is only meaningful right after a failure and must never influence a later call */
+            aws_raise_error(atoi(vh_tok[1]));
+            continue;
         }
         if (vh_ntok > 0 && vh_tok[0][0] != '#') {
             return 1;
@@ -253,7 +274,7 @@ static struct vh_blk *vh_tab_find(void *p) {
 static int vh_recycle;
 static struct vh_blk vh_rcy[128];
 static int vh_nrcy;
-#ifdef VS_TSAN
+#if defined(VS_TSAN) || defined(VH_NO_ASAN)
 static void __asan_poison_memory_region(void const volatile *addr, size_t size) {
     (void)addr;
     (void)size;
